@@ -478,10 +478,21 @@ func runC09(c *Ctx) {
 		c.bad("R3", "gate condition", p.Pos(worker.Pos()), "no branch on svr.readOnly in the worker: the read-only option has no effect")
 		return
 	}
-	// the If on the readonly classification
+	isHandle := func(in ssa.Instruction) bool {
+		cc := callOf(in)
+		return cc != nil && cc.StaticCallee() == handle
+	}
+	ls := rangeChanLoops(worker)
+	var headStart func(ssa.Instruction) bool
+	if len(ls) == 1 {
+		headStart = isLoopHeadStart(ls[0])
+	}
+	// the If on the per-request classification: a boolean that joins constants and readonly() answers (a phi), tested
+	// right before the readOnly test (`!readonly && svr.readOnly`) or under it (`if svr.readOnly { classify; if … }`)
 	var clsIf *ssa.If
 	var clsPhi *ssa.Phi
 	clsNeg := false
+	nested := false // the classification is tested under the readOnly test
 	for _, b := range worker.Blocks {
 		iff, ok := b.Instrs[len(b.Instrs)-1].(*ssa.If)
 		if !ok || iff == roIf {
@@ -493,52 +504,71 @@ func runC09(c *Ctx) {
 			v = u.X
 			neg = true
 		}
-		if ph, ok := v.(*ssa.Phi); ok && (b.Succs[0] == roIf.Block() || b.Succs[1] == roIf.Block()) {
-			clsIf, clsPhi, clsNeg = iff, ph, neg
+		ph, ok := v.(*ssa.Phi)
+		if !ok || !isBasicKind(types.Bool)(ph.Type()) {
+			continue
+		}
+		switch {
+		case b.Succs[0] == roIf.Block() || b.Succs[1] == roIf.Block():
+			clsIf, clsPhi, clsNeg, nested = iff, ph, neg, false
+		case clsIf == nil && (roIf.Block().Succs[0] == b || roIf.Block().Succs[0].Dominates(b)) && edgeOnly(roIf.Block(), roIf.Block().Succs[0]):
+			clsIf, clsPhi, clsNeg, nested = iff, ph, neg, true
 		}
 	}
 	if clsIf == nil {
 		c.und("R3", "gate classification", pos(roIf), "cannot find the branch on the per-request readonly classification next to the readOnly test")
 		return
 	}
-	// which edge of clsIf leads to roIf: must be the "readonly == false" edge
-	edgeToRo := 0
-	if clsIf.Block().Succs[1] == roIf.Block() {
-		edgeToRo = 1
+	// the edge of the classification test on which a request can be refused, and the block that refuses
+	var gateBody *ssa.BasicBlock
+	gateEdge := -1
+	if !nested {
+		gateEdge = 0
+		if clsIf.Block().Succs[1] == roIf.Block() {
+			gateEdge = 1
+		}
+		gateBody = roIf.Block().Succs[0]
+	} else {
+		r0 := reachFromBlock(clsIf.Block().Succs[0], isHandle, headStart)
+		r1 := reachFromBlock(clsIf.Block().Succs[1], isHandle, headStart)
+		switch {
+		case !r0 && r1:
+			gateEdge = 0
+		case r0 && !r1:
+			gateEdge = 1
+		default:
+			c.bad("R3", "gate body skips handlePacket", pos(clsIf), "under the readOnly test both sides of the classification (or neither) reach handlePacket: nothing is refused")
+			return
+		}
+		gateBody = clsIf.Block().Succs[gateEdge]
 	}
-	// phi true => Succs[0] unless negated
-	notRoEdge := 1
+	// what the classification value says: it is tested so that the refusing side is "not read-only"
+	phiAtGate := gateEdge == 0
 	if clsNeg {
-		notRoEdge = 0
+		phiAtGate = !phiAtGate
 	}
-	c.check(edgeToRo == notRoEdge, "R3", "gate polarity", pos(clsIf), "svr.readOnly is consulted exactly for requests classified not-read-only", "the readOnly test is reached for requests classified read-only instead of the others")
-	gateBody := roIf.Block().Succs[0]
-	// gate body must answer and not reach handlePacket
-	isHandle := func(in ssa.Instruction) bool {
-		cc := callOf(in)
-		return cc != nil && cc.StaticCallee() == handle
-	}
-	ls := rangeChanLoops(worker)
-	var headStart func(ssa.Instruction) bool
-	if len(ls) == 1 {
-		headStart = isLoopHeadStart(ls[0])
-	}
+	phiMeansReadonly := !phiAtGate
+	c.okT("R3", "gate polarity", pos(clsIf), fmt.Sprintf("a request is refused when the classification value is %v (and svr.readOnly): the value stands for %s; the per-type obligations of R1 check it against what the handling does", phiAtGate, map[bool]string{true: "read-only", false: "modifying"}[phiMeansReadonly]))
 	c.check(!reachFromBlock(gateBody, isHandle, headStart), "R3", "gate body skips handlePacket", p.Pos(gateBody.Instrs[0].Pos()),
 		"a gated request is answered and the iteration ends", "a gated request still reaches handlePacket")
 	// all paths to handlePacket pass one of the two allowing edges
 	{
 		allowed := map[[2]*ssa.BasicBlock]bool{
-			{clsIf.Block(), clsIf.Block().Succs[1-notRoEdge]}: true, // classified read-only
-			{roIf.Block(), roIf.Block().Succs[1]}:             true, // server not read-only
+			{clsIf.Block(), clsIf.Block().Succs[1-gateEdge]}: true, // classified read-only
+			{roIf.Block(), roIf.Block().Succs[1]}:            true, // server not read-only
 		}
-		// BFS from the classification block without the allowed edges
-		seen := map[*ssa.BasicBlock]bool{clsIf.Block(): true}
-		work := []*ssa.BasicBlock{clsIf.Block()}
+		startB := clsIf.Block()
+		if nested {
+			startB = roIf.Block()
+		}
+		// BFS from the first of the two tests without the allowed edges
+		seen := map[*ssa.BasicBlock]bool{startB: true}
+		work := []*ssa.BasicBlock{startB}
 		leak := false
 		for len(work) > 0 {
 			b := work[len(work)-1]
 			work = work[:len(work)-1]
-			if b != clsIf.Block() {
+			if b != startB {
 				for _, in := range b.Instrs {
 					if isHandle(in) {
 						leak = true
@@ -557,9 +587,9 @@ func runC09(c *Ctx) {
 			}
 		}
 		c.check(!leak, "R3", "gate dominates handlePacket", pos(clsIf), "handlePacket is reachable only through 'classified read-only' or 'server not read-only'", "handlePacket is reachable on a path that bypasses the read-only gate")
-		// the classification precedes every handlePacket call
+		// the gate precedes every handlePacket call
 		for _, h := range findInstrs(worker, isHandle) {
-			c.check(clsIf.Block().Dominates(h.Block()), "R3", "classification before handlePacket", pos(h), "the gate is evaluated before dispatch", "handlePacket can run before the read-only classification")
+			c.check(startB.Dominates(h.Block()), "R3", "classification before handlePacket", pos(h), "the gate is evaluated before dispatch", "handlePacket can run before the read-only classification")
 		}
 	}
 	// readOnly written only by the ReadOnly option
@@ -571,7 +601,7 @@ func runC09(c *Ctx) {
 			}
 			if fa, ok := st.Addr.(*ssa.FieldAddr); ok {
 				if t, n, _, _ := fieldOf(fa); n == "readOnly" && typeName(t) == "Server" {
-					c.check(fnName(outermost(fn)) == "ReadOnly", "R3", "write of Server.readOnly in "+fnName(fn), pos(in), "set only by the ReadOnly option", "readOnly is written outside the ReadOnly option: the gate may be switched off during a session")
+					c.check(fnName(outermost(fn)) == "ReadOnly" || p.usedOnlyAsValueIn(fn, "ReadOnly"), "R3", "write of Server.readOnly in "+fnName(fn), pos(in), "set only by the ReadOnly option", "readOnly is written outside the ReadOnly option: the gate may be switched off during a session")
 				}
 			}
 		})
@@ -656,10 +686,19 @@ func runC09(c *Ctx) {
 			return "?", "cannot map the gate's arm to the classification value"
 		}
 		if k, ok := val.(*ssa.Const); ok && k.Value != nil && k.Value.Kind() == constant.Bool {
-			if constant.BoolVal(k.Value) {
+			if constant.BoolVal(k.Value) == phiMeansReadonly {
 				return "true", "gate arm yields readonly = true"
 			}
 			return "false", "gate arm yields readonly = false"
+		}
+		// a value that stands for "modifies" carries the negation of readonly()
+		if u, ok := val.(*ssa.UnOp); ok && u.Op == token.NOT {
+			if phiMeansReadonly {
+				return "?", "the gate arm negates readonly() although the classification value stands for read-only"
+			}
+			val = u.X
+		} else if _, isCall := val.(*ssa.Call); isCall && !phiMeansReadonly {
+			return "?", "the gate arm takes readonly() as it is although the classification value stands for modifying"
 		}
 		if call, ok := val.(*ssa.Call); ok && calleeName(&call.Call) == "readonly" {
 			switch typeName(recvOf(&call.Call).Type()) {
@@ -789,7 +828,14 @@ func runC09(c *Ctx) {
 		}
 		g, gwhy := classify(seen)
 		if g == "specific" {
-			if ro, ok := constReadonly(t); ok {
+			if ro, ok := evalExtendedReadonly(p, t); ok {
+				if ro {
+					g = "true"
+				} else {
+					g = "false"
+				}
+				gwhy = "(*sshFxpExtendedPacket).readonly() evaluated with a " + tn
+			} else if ro, ok := constReadonly(t); ok {
 				if ro {
 					g = "true"
 				} else {
@@ -866,47 +912,94 @@ func runC09(c *Ctx) {
 	}
 }
 
-// extractErrnoTable reads translateErrno's switch: errno constant name -> status code.
-func extractErrnoTable(p *Program) (map[string]int64, string) {
-	fd, info := p.FuncDecl(pkgSftp, "", "translateErrno")
-	if fd == nil {
-		return nil, "translateErrno not found"
+// usedOnlyAsValueIn: fn is never called by name and is mentioned (itself, or through the wrapper go/ssa makes for a
+// method expression or method value) only inside the function called `where`: it is that function's result or
+// argument, like a literal written there would be.
+func (p *Program) usedOnlyAsValueIn(fn *ssa.Function, where string) bool {
+	if len(p.callersOfStatic(fn)) > 0 {
+		return false
 	}
-	out := map[string]int64{}
-	var def int64 = -1
-	for _, st := range fd.Body.List {
-		switch x := st.(type) {
-		case *ast.SwitchStmt:
-			for _, cl := range x.Body.List {
-				cc := cl.(*ast.CaseClause)
-				if len(cc.Body) != 1 {
-					return nil, "translateErrno case body is not a single return"
-				}
-				ret, ok := cc.Body[0].(*ast.ReturnStmt)
-				if !ok {
-					return nil, "translateErrno case body is not a return"
-				}
-				v, ok := constOf(info, ret.Results[0])
-				if !ok {
-					return nil, "translateErrno returns a non-constant"
-				}
-				for _, e := range cc.List {
-					name := types.ExprString(e)
-					name = strings.TrimPrefix(name, "syscall.")
-					out[name] = v
-				}
-				if cc.List == nil {
-					def = v
-				}
-			}
-		case *ast.ReturnStmt:
-			if v, ok := constOf(info, x.Results[0]); ok {
-				def = v
-			}
+	target := func(v ssa.Value) bool {
+		f, ok := v.(*ssa.Function)
+		if !ok {
+			return false
 		}
+		if f == fn {
+			return true
+		}
+		if f.Synthetic == "" || f.Blocks == nil {
+			return false
+		}
+		hit, other := false, false
+		eachInstr(f, func(in ssa.Instruction) {
+			if cc := callOf(in); cc != nil {
+				if cc.StaticCallee() == fn {
+					hit = true
+				} else {
+					other = true
+				}
+			}
+		})
+		return hit && !other
 	}
-	out["default"] = def
+	n := 0
+	okAll := true
+	for _, f := range p.modFuncs {
+		eachInstr(f, func(in ssa.Instruction) {
+			for _, op := range in.Operands(nil) {
+				if op == nil || *op == nil || !target(*op) {
+					continue
+				}
+				n++
+				if fnName(outermost(f)) != where {
+					okAll = false
+				}
+			}
+		})
+	}
+	return okAll && n > 0
+}
+
+// extractErrnoTable: errno constant name -> status code, as translateSyscallError answers for a bare syscall.Errno of
+// that value (by evaluation of its SSA: the table may be a helper's switch, an inlined switch or a map).
+func extractErrnoTable(p *Program) (map[string]int64, string) {
+	out := map[string]int64{}
+	ev := &errEval{p: p}
+	for _, n := range []string{"0", "ENOENT", "EACCES", "EPERM", "EIO"} {
+		k, ok := ev.evalTranslate(errShape{Name: "syscall.Errno(" + n + ")", Outer: "Errno", Errno: n})
+		if ev.failed != "" {
+			return nil, ev.failed
+		}
+		if !ok {
+			return nil, "translateSyscallError does not translate a bare syscall.Errno (" + n + ")"
+		}
+		if n == "EIO" {
+			n = "default"
+		}
+		out[n] = k
+	}
 	return out, ""
+}
+
+// evalExtendedReadonly runs (*sshFxpExtendedPacket).readonly() in the SSA interpreter for an extended packet whose
+// SpecificPacket holds a value of dynamic type t (nil: no specific packet, i.e. an unknown extension name).
+func evalExtendedReadonly(p *Program, t types.Type) (answer, ok bool) {
+	m := p.Func("(*sshFxpExtendedPacket).readonly")
+	if m == nil || m.Blocks == nil || len(m.Params) != 1 {
+		return false, false
+	}
+	st := derefType(m.Params[0].Type())
+	obj := &evObj{typ: st, fields: map[string]evVal{}}
+	if t == nil {
+		obj.fields["SpecificPacket"] = evVal{k: evNil}
+	} else {
+		obj.fields["SpecificPacket"] = evVal{k: evIface, t: t, inner: &evVal{k: evObject, obj: &evObj{typ: derefType(t), fields: map[string]evVal{}}}}
+	}
+	res := newEvaluator(p).run(m, []evVal{{k: evObject, obj: obj}}, 0)
+	if res.kind != "return" || len(res.vals) != 1 || res.vals[0].k != evConst || res.vals[0].c.Kind() != constant.Bool {
+		return false, false
+	}
+	return constant.BoolVal(res.vals[0].c), true
 }
 
 // checkExtendedReadonly evaluates (*sshFxpExtendedPacket).readonly() as a function of its SpecificPacket field:
@@ -921,6 +1014,31 @@ func checkExtendedReadonly(c *Ctx, prop string) {
 	// when that method has been folded into the worker — the values that reach the worker's classification in the arm
 	// of *sshFxpExtendedPacket
 	m := p.Func("(*sshFxpExtendedPacket).readonly")
+	// by evaluation, when the method can be run for every case: no specific packet, and each specific packet type the
+	// decoder builds; what the answers have to be for the decoded ones is R1's business (each is compared with what
+	// handling that packet does)
+	if m != nil && m.Blocks != nil {
+		_, specific := requestTypes(c, map[string]string{"C09": "R1", "C19": "R6"}[prop])
+		nilAns, okAll := evalExtendedReadonly(p, nil)
+		var answers []string
+		for _, t := range specific {
+			a, ok := evalExtendedReadonly(p, t)
+			if !ok {
+				okAll = false
+			}
+			answers = append(answers, fmt.Sprintf("%s→%v", typeName(t), a))
+		}
+		if okAll && len(specific) > 0 {
+			switch prop {
+			case "C09":
+				c.ok("R1", "extended readonly delegates", p.Pos(m.Pos()), "readonly() evaluated for every specific packet type: "+strings.Join(answers, ", "))
+			case "C19":
+				c.check(nilAns, "R6", "unknown extension is not refused by the read-only gate", p.Pos(m.Pos()), "SpecificPacket == nil ⇒ readonly() is true, so the request reaches the op-unsupported reply",
+					"an extended request with an unknown name is classified as a write: a read-only server answers SSH_FX_PERMISSION_DENIED instead of SSH_FX_OP_UNSUPPORTED")
+			}
+			return
+		}
+	}
 	var leaves []retLeaf
 	if m != nil && m.Blocks != nil {
 		leaves = returnLeaves(m, 0)
